@@ -1010,6 +1010,8 @@ fn main() {
                 Value::make_dict(mk(&[("c", Value::Marker), ("id", Value::make_ref("r1"))])),
                 Value::make_dict(mk(&[("dis", Value::make_str("z")), ("id", Value::make_ref("r1"))])), Value::make_dict(mk(&[("dis", Value::make_str("a")), ("id", Value::make_ref("r2"))])),
                 Value::make_dict(mk(&[("id", Value::make_str("r1"))])),
+                Value::make_date(libhaystack::val::Date::from_ymd(2021, 1, 19).unwrap()), Value::make_date(libhaystack::val::Date::from_ymd(2021, 1, 20).unwrap()),
+                Value::make_time(libhaystack::val::Time::from_hms(19, 48, 23).unwrap()), Value::make_time(libhaystack::val::Time::from_hms(19, 48, 24).unwrap()),
                 dt("2021-01-19T19:48:23Z", "UTC"), dt("2021-01-19T19:48:23Z", "London"), dt("2021-01-19T14:48:23-05:00", "New_York"), dt("2021-01-19T19:48:24Z", "UTC"),
             ];
             for a in &vals { for b in &vals { for c in &vals {
